@@ -11,3 +11,16 @@ Theorem C08_terminals_after_bos : forall n T dr bos_state ws,
   ({| c_left := {| l_ptrs := []; l_full := true |}; c_right := snd (score_seq n T bos_state ws) |},
    fold_right Z.add 0 (fst (score_seq n T bos_state ws))).
 Proof. exact terminals_after_bos. Qed.
+
+(* Extending an already scored n-gram (pointer = the entry of w :: c1) with further left context c2, charging the
+   back-offs of the contexts c1 ++ c2[0..i], gives -- once the .rest returned before is added back -- exactly the
+   ARPA back-off score of w given c1 ++ c2, and the same matched n-gram as scoring with c1 ++ c2 in the first place. *)
+Theorem C08_extend_left_is_rescoring : forall n T M, (2 <= n)%nat -> TInv n T M ->
+  forall c1 c2 w e, T (w :: c1) = Some e -> (length (c1 ++ c2) <= n - 1)%nat ->
+  let bin := map (fun i => bv T (c1 ++ firstn (S i) c2)) (seq 0 (length c2)) in
+  let '(r, bos, nu) := extend_left n T c2 bin (w :: c1) in
+  r_prob r + e_rest e = spec M (c1 ++ c2) w (length (c1 ++ c2)) /\
+  (exists e', T (w :: firstn (r_len r - 1) (c1 ++ c2)) = Some e' /\
+     forall i, (r_len r - 1 < i <= length (c1 ++ c2))%nat -> T (w :: firstn i (c1 ++ c2)) = None) /\
+  (length c1 < r_len r)%nat.
+Proof. intros n T M Hn I c1 c2 w e He Hl. exact (extend_left_rescoring n Hn T M I c1 c2 w e He Hl). Qed.
